@@ -502,6 +502,116 @@ pub fn run(a: &Args) -> i32 {
             nstr += 1;
         }
     }
+    // ---- 3b. one long-lived Game along every quiet path of a few pieces (tempo losses included):
+    // at every ply the listed labels must be those of the side to move, a label that is legal only
+    // for the other side must be refused, and the path move typed as its label must be played
+    let mut path_games = 0u64;
+    let mut path_inputs = 0u64;
+    for (fen, squares) in [("7k/8/8/8/8/8/8/K7 w - - 0 1", vec!["a1", "b1", "b2", "a2", "h8", "g8", "g7", "h7"]), ("rnbqkbnr/pppppppp/8/8/8/8/PPPPPPPP/RNBQKBNR w KQkq - 0 1", vec!["g1", "f3", "g8", "f6", "b1", "c3", "b8", "c6"])] {
+        let root = Pos::from_fen(fen).unwrap();
+        let allowed: Vec<Sq> = squares.iter().map(|x| parse_sq(x).unwrap()).collect();
+        let len = if thorough { 6 } else { 5 };
+        let mut paths: Vec<Vec<Move>> = vec![vec![]];
+        for _ in 0..len {
+            let mut next = Vec::new();
+            for h in &paths {
+                let mut p = root.clone();
+                for m in h {
+                    p = p.make(m);
+                }
+                for m in p.legal_moves().into_iter().filter(|m| allowed.contains(&m.from) && allowed.contains(&m.to)) {
+                    let mut t = h.clone();
+                    t.push(m);
+                    next.push(t);
+                }
+            }
+            paths = next;
+        }
+        for h in paths.iter() {
+            path_games += 1;
+            let mut game = Game::from_board(build_board(&root), 0);
+            let mut p = root.clone();
+            let mut played: Vec<String> = Vec::new();
+            for k in 0..=h.len() {
+                let legal = p.legal_moves();
+                let labels: BTreeSet<String> = legal.iter().map(|x| san(&p, x, &legal)).collect();
+                let mk = |p: &Pos, played: &Vec<String>, class: &str, input: &str, detail: String| {
+                    sink.push(Violation { prop: "C14".into(), class: class.into(), seed: root.to_fen(), path: played.clone(), detail: format!("one Game object along the path {:?}, now in {}: input {:?}: {}", played, p.to_fen(), input, detail), extra: json!({"kind": "c14-path", "fen": root.to_fen(), "input": input, "path": h.iter().map(uci).collect::<Vec<_>>()}) });
+                };
+                // the labels the game lists
+                match guarded(|| game.enumerated_candidate_moves()) {
+                    Ok(listed) => {
+                        let got: BTreeSet<String> = listed.iter().map(|x| x.1.clone()).collect();
+                        if got != labels {
+                            mk(&p, &played, "listed-labels-are-not-those-of-the-side-to-move", "(listing)", format!("listed {:?}, standard {:?}", got.iter().take(6).collect::<Vec<_>>(), labels.iter().take(6).collect::<Vec<_>>()));
+                            break;
+                        }
+                    }
+                    Err(e) => {
+                        mk(&p, &played, "panic-on-input", "(listing)", e);
+                        break;
+                    }
+                }
+                // a label that only the other side could play
+                let mut other = p.clone();
+                other.stm = p.stm.other();
+                other.ep = None;
+                if other.is_consistent() {
+                    let ol = other.legal_moves();
+                    if let Some(foreign) = ol.iter().map(|x| san(&other, x, &ol)).find(|l| !labels.contains(l) && !legal.iter().any(|lm| lenient_forms(lm).contains(&strip(l)))) {
+                        path_inputs += 1;
+                        let before = snapshot(game.board());
+                        match guarded(|| game.apply_chess_move_from_raw_algebraic_notation(foreign.clone())) {
+                            Ok(Ok(mv)) => {
+                                mk(&p, &played, "string-denoting-no-legal-move-accepted", &foreign, format!("a label of the OTHER side was accepted and played {}", desc_str(&describe_impl(&mv))));
+                                break;
+                            }
+                            Ok(Err(_)) => {
+                                if snapshot(game.board()) != before {
+                                    mk(&p, &played, "rejected-input-had-an-effect", &foreign, String::new());
+                                    break;
+                                }
+                            }
+                            Err(e) => {
+                                mk(&p, &played, "panic-on-input", &foreign, e);
+                                break;
+                            }
+                        }
+                    }
+                }
+                // the path move, typed as its standard label
+                if k == h.len() {
+                    break;
+                }
+                let m = &h[k];
+                let label = san(&p, m, &legal);
+                path_inputs += 1;
+                match guarded(|| game.apply_chess_move_from_raw_algebraic_notation(label.clone())) {
+                    Ok(Ok(mv)) => {
+                        if describe_impl(&mv) != describe_model(m) {
+                            mk(&p, &played, "label-played-a-different-move", &label, format!("played {}", desc_str(&describe_impl(&mv))));
+                            break;
+                        }
+                    }
+                    Ok(Err(e)) => {
+                        mk(&p, &played, "standard-label-rejected", &label, format!("{}", e));
+                        break;
+                    }
+                    Err(e) => {
+                        mk(&p, &played, "panic-on-input", &label, e);
+                        break;
+                    }
+                }
+                game.board_mut().toggle_turn();
+                p = p.make(m);
+                played.push(uci(m));
+                if snapshot(game.board()).diff_pos(&p) != "" {
+                    mk(&p, &played, "accepted-input-played-a-different-move", &label, "position differs from the model".into());
+                    break;
+                }
+            }
+        }
+    }
     // ---- 4. the real binary (thorough) ----
     let mut bin_lines = 0u64;
     if thorough {
@@ -529,11 +639,13 @@ pub fn run(a: &Args) -> i32 {
     rep.add("command_line_castling_labels_with_check_or_mate", st.cli_castle_with_mark);
     rep.add("game_objects_created", games_total);
     rep.add("binary_lines_typed", bin_lines);
+    rep.add("long_lived_game_paths", path_games);
+    rep.add("long_lived_game_path_inputs", path_inputs);
     rep.samples = vec![json!({"state": states.last().map(|s| s.0.to_fen()), "inputs": "4096 coordinate pairs"}), json!({"near_miss_operators": ["check mark added / removed", "capture mark added / removed", "disambiguation removed / wrong file / wrong rank / full square", "wrong piece letter", "promotion piece dropped / =K / =P / added", "destination shifted by one file or rank", "labels of the other side and of the parent position", "junk"]})];
     rep.bounds = json!({"states": "tree seeds + children (thorough: + grandchildren of small seeds)", "coordinate_pairs": 4096, "strings": "generated set per position (see samples)", "command_line": "every label printed by the engine for the string-checked states"});
     rep.rule = "state = position; transitions = one real Game API call (or one line through the real stdin reader) per input; accepted inputs are compared with the model successor and the history, rejected ones with the full snapshot".into();
     rep.assumptions = vec!["strings that denote a legal move only under a lenient reading (missing check mark, over-disambiguation, ...) are not judged".into(), "the in-process command-line level replaces fd 0 by a pipe; the real binary is driven in the thorough tier".into()];
-    rep.mandatory = vec!["coordinate_inputs_accepted".into(), "promotions_played_by_coordinates".into(), "strings_equal_to_a_standard_label".into(), "strings_that_must_be_rejected".into(), "command_line_inputs".into(), "command_line_castling_labels_with_check_or_mate".into()];
+    rep.mandatory = vec!["coordinate_inputs_accepted".into(), "promotions_played_by_coordinates".into(), "strings_equal_to_a_standard_label".into(), "strings_that_must_be_rejected".into(), "command_line_inputs".into(), "command_line_castling_labels_with_check_or_mate".into(), "long_lived_game_path_inputs".into()];
     rep.finish(&sink)
 }
 
